@@ -51,6 +51,8 @@ void MarkStackDead(const void* frame);
 #define VRT_STACK_RETURN() ::vrt::MarkStackDead(__builtin_frame_address(0))
 
 // Give a stable name to an atomic / lock / condvar object (exact address).
+// harness-declared preemption point inside plain code; taken only in tail-split executions (monitors only)
+void SplitPoint();
 // operator new never hands out an address twice (see vrt.cpp); used by the reproducibility runs
 // descending: later blocks get lower addresses (an address-ordered decision sees the opposite order)
 void SetNoReuseHeap(bool on, bool descending = false);
